@@ -27,3 +27,8 @@ Fixpoint bscatter (m : list bool) (vals base : vec) : vec :=
   end.
 Fixpoint bset (m : list bool) (a : float) (base : vec) : vec :=
   match m, base with b_ :: m', e_ :: base' => (if b_ then a else e_) :: bset m' a base' | _, _ => base end.
+
+(* np.cumsum(rows, axis=0): running sums of the rows; the first row is returned as it is *)
+Fixpoint np_cumsum_from (acc : vec) (rs : list vec) : list vec :=
+  match rs with [] => [] | r :: rs' => let a := vadd acc r in a :: np_cumsum_from a rs' end.
+Definition np_cumsum (rs : list vec) : list vec := match rs with [] => [] | r :: rs' => r :: np_cumsum_from r rs' end.
